@@ -14,16 +14,34 @@ Theorem C16_conc_ids_unique : forall hash prefix writers sched,
   Forall (fun t => t_id t < g_ntx g) (g_txs g) /\ Forall (fun l => l_id l < g_nlog g) (g_logs g).
 Proof.
   intros hash prefix writers sched g.
-  assert (H : ids_inv g).
-  { apply ids_unique_all_schedules. apply ids_inv_reseat. apply ids_unique_all_schedules. apply ids_inv_init. }
-  destruct H as [[A B] [C D]]. auto.
+  destruct (inv_ids g (outcome_tx_inv hash prefix writers sched) (outcome_log_inv hash prefix writers sched)) as [[A B] [C D]]. auto.
 Qed.
 Print Assumptions C16_conc_ids_unique.
 
-(* the same from any state satisfying the invariant (e.g. any reachable one) *)
-Theorem C16_conc_ids_unique_from : forall g sched, ids_inv g -> ids_inv (run g sched).
-Proof. exact ids_unique_all_schedules. Qed.
+(* the same from any state satisfying the table invariants (e.g. any reachable one) *)
+Theorem C16_conc_ids_unique_from : forall g sched, tx_inv g -> log_inv g -> ids_inv (run g sched).
+Proof. intros g sched Ht Hl. apply inv_ids; [apply tx_inv_all_schedules|apply log_inv_all_schedules]; auto. Qed.
 Print Assumptions C16_conc_ids_unique_from.
+
+(* commit order, log ids, HASH_LOGS = SYNC: InsertLog takes the per-ledger advisory lock BEFORE nextval and keeps it until
+   COMMIT, so for ALL schedules the log ids made visible by successive COMMITs are strictly increasing (g_clogs lists, in
+   commit order, the ids of the logs each COMMIT publishes).  Invariant (ConcProofs.log_ok): only the holder of the lock has a
+   log in flight, and that log's id is above every committed one. *)
+Lemma run_hash : forall s g, g_hash (run g s) = g_hash g.
+Proof. induction s as [|w r IH]; simpl; intros g; auto. rewrite IH. apply (proj2 (step_lev g w)). Qed.
+Theorem C16_conc_log_order_locked : forall prefix writers sched,
+  StronglySorted Z.lt (g_clogs (sched_outcome true prefix writers sched)).
+Proof.
+  intros. pose proof (outcome_log_inv true prefix writers sched) as H.
+  apply (lg_order _ _ _ _ _ H). unfold sched_outcome, after_prefix. rewrite run_hash. simpl. rewrite run_hash. reflexivity.
+Qed.
+Print Assumptions C16_conc_log_order_locked.
+Theorem C16_conc_log_order_locked_from : forall g sched, log_inv g -> g_hash g = true -> StronglySorted Z.lt (g_clogs (run g sched)).
+Proof.
+  intros g sched H Hh. pose proof (log_inv_all_schedules g sched H) as H'. apply (lg_order _ _ _ _ _ H').
+  rewrite run_hash. exact Hh.
+Qed.
+Print Assumptions C16_conc_log_order_locked_from.
 
 (* FULL STATEMENT "a later COMMIT never receives a smaller id" (transaction ids):
      forall hash prefix writers sched, StronglySorted Z.lt (g_ctxs (sched_outcome hash prefix writers sched))
@@ -59,3 +77,17 @@ Example C16c_example :
   let g := sched_outcome true [] two_disjoint [0; 0; 1; 1; 1; 1; 1; 0; 0; 0]%nat in
   g_commits g = [1; 0]%nat /\ g_ctxs g = [2; 1] /\ g_clogs g = [1; 2] /\ results g = [ROk 2 1 false; ROk 1 2 false].
 Proof. vm_compute. repeat split; reflexivity. Qed.
+
+(* the hypotheses of the *_from forms hold on every state reached from a serial prefix (here: two funded accounts, two
+   requests seated), so the theorems apply to it and to everything any schedule reaches from it *)
+Definition seated : gst := after_prefix true [xfer "world" "alice" 0; xfer "world" "carol" 1] two_disjoint.
+Example C16c_from_hypotheses :
+  tx_inv seated /\ log_inv seated /\ g_hash seated = true /\ List.length (g_txs seated) = 2%nat /\ List.length (g_logs seated) = 2%nat.
+Proof.
+  split; [|split; [|split; [|split]]].
+  - unfold seated, after_prefix. apply tx_inv_reseat. apply tx_inv_all_schedules. apply tx_inv_init.
+  - unfold seated, after_prefix. apply log_inv_reseat. apply log_inv_all_schedules. apply log_inv_init.
+  - vm_compute. reflexivity.
+  - vm_compute. reflexivity.
+  - vm_compute. reflexivity.
+Qed.
